@@ -11,12 +11,14 @@ var (
 	keyPool  = []string{"k1", "k2", "k3"}
 	hostKeys = []string{"", "a b", "\x00\xff", "*", "k[1]", "k1\x00x", "kéy"}
 	strVals  = []string{"", "0", "7", "-3", "+5", "007", "abc", "1.5", "9223372036854775807",
-		"-9223372036854775808", "9223372036854775808", " 1", "1 ", "0x10", "1_0", "\r\n\x00\xfe"}
+		"-9223372036854775808", "9223372036854775808", " 1", "1 ", "0x10", "1_0", "\r\n\x00\xfe",
+		"0.25", ".5", "5.", "-0.125", "1e3", "inf", "0.1", "-0", "1.2.3", "2.50", "+", "12a", "NaN"}
 	elemPool  = []string{"a", "b", "c"}
 	hostElems = []string{"", "\x00", "a\r\nb", "\xff\xfe", "*", "[a]", "12", "-0"}
 	fieldPool = []string{"f1", "f2", "f3"}
 	scorePool = []float64{negInf, -1, 0, 0.5, 1, 1, posInf, 2.25, 1024, -0.5}
 	patPool   = []string{"*", "k*", "k?", "?1", "[a-c]*", "k[!1]", "k[^1]", "nomatch", "k[", "k[1-2]", "*1", "a", "f*", "[]a]", "k\\*", ""}
+	fdeltas   = []float64{0.5, -0.25, 1, 1.5, -2, 0, 0.125, 1024, 3.0517578125e-05, 1e15, 0.1}
 	deltas    = []int{1, -1, 0, 5, -7, 1 << 40, 9223372036854775807, -9223372036854775808}
 )
 
@@ -148,7 +150,12 @@ func (g *gen) strOp() step {
 		return opStrGet(g.key())
 	case 2:
 		return opStrGetMany(g.keys(3))
-	case 3, 4:
+	case 3:
+		return opStrIncr(g.key(), deltas[g.rnd.Intn(len(deltas))])
+	case 4:
+		if g.coin() {
+			return opStrIncrFloat(g.key(), fdeltas[g.rnd.Intn(len(fdeltas))])
+		}
 		return opStrIncr(g.key(), deltas[g.rnd.Intn(len(deltas))])
 	case 5, 6:
 		return opStrSet(g.key(), g.val(), g.coin())
@@ -317,7 +324,12 @@ func (g *gen) hashOp() step {
 		return opHashGet(g.key(), g.field())
 	case 5:
 		return opHashGetMany(g.key(), []string{g.field(), g.field(), g.field()}[:g.rnd.Intn(4)])
-	case 6, 7:
+	case 6:
+		return opHashIncr(g.key(), g.field(), deltas[g.rnd.Intn(len(deltas))])
+	case 7:
+		if g.coin() {
+			return opHashIncrFloat(g.key(), g.field(), fdeltas[g.rnd.Intn(len(fdeltas))])
+		}
 		return opHashIncr(g.key(), g.field(), deltas[g.rnd.Intn(len(deltas))])
 	case 8:
 		return opHashItems(g.key())
